@@ -189,6 +189,18 @@ Definition step (iv : N) (x : est * wst) (i : sitem) : est * wst :=
 Definition run_from (iv : N) (x : est * wst) (sched : list sitem) : est * wst := fold_left (step iv) sched x.
 Definition run (iv : N) (sched : list sitem) : est * wst := run_from iv (e0, w0) sched.
 
+(* The handle's stop flag is INPUT state of run_worker_loop: the handle is created by the caller
+   (EnrichmentWorkerHandle::new, flag false) and `stop()` may be called on it before the loop is
+   entered -- before the thread is spawned, or between the spawn and the thread's first instruction.
+   Loop entry (`handle.set_running(true); let mut tasks_since_checkpoint = 0;`) reads and writes
+   nothing else: in particular it does NOT touch the flag, so the first `while !handle.should_stop()`
+   sees whatever the caller left there.  `init pre` is the state at loop entry with the flag = pre;
+   `run` is `run_pre _ false`.  (A loop that cleared the flag on entry would be `init false` whatever
+   the caller did: the theorems C41_prestopped_* / C41_stop_at_any_time do not hold of it, and the
+   correspondence runs with a pre-stopped handle tell the two apart.) *)
+Definition init (pre : bool) : est * wst := (mkE store0 [] pre [] [] [] [] [] [] false, w0).
+Definition run_pre (iv : N) (pre : bool) (sched : list sitem) : est * wst := run_from iv (init pre) sched.
+
 (* n consecutive worker steps, checkpoints appending no log record of their own *)
 Fixpoint wsteps (iv : N) (n : nat) (x : est * wst) : est * wst :=
   match n with O => x | S k => wsteps iv k (wstep iv 0 x) end.
